@@ -94,7 +94,11 @@ func main() {
 	os.Exit(code)
 }
 
+// partialRun: only one harness of the check was asked for (--only): its evidence is not the check's
+var partialRun bool
+
 func runCheck(id, tier, only string, seed, workers int, verbose, noMerge bool, solverLog string, noReplay bool, replayPath string) int {
+	partialRun = only != ""
 	start := time.Now()
 	cfg, err := loadCfg(id)
 	if err != nil {
@@ -576,6 +580,8 @@ func writeEvidence(cfg *CheckCfg, tier string, seed int, eng *Engine, results []
 	}
 	if os.Getenv("VERIF_REPO") != "" {
 		sub = filepath.Join(".work", "evidence-other-tree") // runs against another tree (seeded changes) never touch the evidence of /repo
+	} else if partialRun {
+		sub = filepath.Join(".work", "evidence-partial") // a single harness (--only) is not the check: keep the check's evidence
 	}
 	os.MkdirAll(filepath.Join(verifDir(), sub), 0o755)
 	b, _ := json.MarshalIndent(ev, "", " ")
